@@ -9,11 +9,17 @@ package evalfilter
 // primitive, or writes anywhere but standard output, is a counterexample)
 // and an adversarial process environment.
 
-import "github.com/skx/evalfilter/v2/zzsv"
+import (
+	"github.com/skx/evalfilter/v2/ast"
+	"github.com/skx/evalfilter/v2/lexer"
+	"github.com/skx/evalfilter/v2/parser"
+	"github.com/skx/evalfilter/v2/zzsv"
+)
 
 func init() {
 	zzsv.Register("ZZ_C10_FaultingScripts", ZZ_C10_FaultingScripts)
 	zzsv.Register("ZZ_C10_OddObjects", ZZ_C10_OddObjects)
+	zzsv.Register("ZZ_C10_ScriptVariables", ZZ_C10_ScriptVariables)
 }
 
 // ZZ_C10_FaultingScripts: the 31 run-time fault scripts of C08 (division and
@@ -28,4 +34,44 @@ func ZZ_C10_FaultingScripts(sv *zzsv.T) {
 func ZZ_C10_OddObjects(sv *zzsv.T) {
 	sv.EnvOther("/etc/hostname")
 	ZZ_C08_OddObjects(sv)
+}
+
+// ZZ_C10_ScriptVariables: script variables live in the same name-space as
+// whatever the host (or the machine itself) keeps there. A script that
+// assigns a variable whose NAME is symbolic (2..8 upper-case letters; the
+// solver picks the spelling that matters, if any does) a path, a boolean or
+// a number, then calls a function, loops, and is run again - still touches
+// nothing but standard output.
+func ZZ_C10_ScriptVariables(sv *zzsv.T) {
+	sv.EnvOther("/etc/hostname")
+	ln := 2 + sv.Choice("name.len", 7)
+	name := sv.String("name", ln)
+	for i := 0; i < ln; i++ {
+		sv.Assume(name[i] >= 'A' && name[i] <= 'Z')
+	}
+	vals := []string{"\"/tmp/zz_c10_probe\"", "true", "1", "\"|cat /etc/hostname\""}
+	val := vals[sv.Choice("value", len(vals))]
+	src := "ZZNAME = " + val + "; function f(p) { return p; } x = f(1); foreach v in [1, 2] { x = x + f(v); } return x;"
+	sv.Note("script", src+"   (ZZNAME is a symbolic identifier)")
+	p := parser.New(lexer.New(src))
+	prog, err := p.Parse()
+	sv.Assume(err == nil)
+	zzWalk(prog, func(n ast.Node) {
+		if as, ok := n.(*ast.AssignStatement); ok && as.Name != nil && as.Name.Value == "ZZNAME" {
+			as.Name.Value = name
+			as.Name.Token.Literal = name
+		}
+	})
+	e := New(src)
+	ok := zzNoPanic(func() {
+		if zzPrepareAST(e, prog, sv.Choice("noopt", 2) == 0) != nil {
+			return
+		}
+		sv.StdoutStart()
+		_, err1 := e.Execute(nil)
+		_, err2 := e.Run(nil)
+		sv.StdoutEnd()
+		sv.Observe("runs", err1 != nil, err2 != nil)
+	})
+	sv.Assert("C10.scriptvars.returns", ok)
 }
